@@ -14,20 +14,20 @@
    midnight, monthly ticks the first of a month at midnight, ... , second ticks
    whole seconds; millisecond ticks whole milliseconds).
 
-   NOT PROVED (DESIGN.md planned them as `tt_count_partial`,
-   `tt_gap_ratio_partial`, `tt_short_domain`); they are checked on every
-   generated case by the property oracle of harness/props/c16.py instead:
-     tt_count      : ts_ticks d0 d1 m = Ok l -> m <= span_ms ->
-                     m / 2.4 - 1 <= length l <= 2.4 * m + 1
-     tt_gap_ratio  : for consecutive ticks a b c of l:
-                     (c - b) <= 2 * (b - a) /\ (b - a) <= 2 * (c - b)
-     tt_short_domain : span_ms < m -> l = one instant per millisecond of [lo, hi]
-   What is missing is the case analysis over the 18 rows of the method table
-   (and, for day/month/year rows, over month and year lengths) and the error
-   analysis of the linear tick step (ilog10 and the .15/.35/.75 thresholds). *)
+   ALSO PROVED (Time/TickCountProofs.v; they were the `_partial` items of
+   DESIGN.md), for ALL rows of the method table (seconds ... years, both
+   fall-backs), all valid domains of millisecond resolution and all m >= 1:
+     tt_short_domain : span_ms < m -> exactly one tick per millisecond of [lo, hi]
+     tt_gap_ratio    : all consecutive gaps lie in [g, 2 g] for some g > 0
+                       (fixed-length rows: equal gaps; 2-day ticks: 1 or 2 days;
+                        months: 28..31 days; quarters: 84..93; k years: 365k..366k)
+     tt_count        : m <= span_ms -> m / 2.4 - 1 <= length l <= 2.4 m + 1
+   Nothing of the property's counting clauses is left unproved on the model.
+   (The bounds hold for every m >= 1 and every span; the property only claims
+   m in 2..50 and spans up to 250 years.) *)
 From Coq Require Import ZArith QArith List Bool Sorted.
 From Labella Require Import Time.Calendar Time.Interval Time.IntervalSpec Time.TimeScale
-  Time.TimeTicks Time.TimeTicksProofs History.TimeOld.
+  Time.TimeTicks Time.TimeTicksProofs Time.TickCountProofs History.TimeOld.
 Import ListNotations.
 Open Scope Z_scope.
 
@@ -85,6 +85,35 @@ Theorem C16_ilog10_fuel_enough : forall q : Q, (0 < q)%Q -> ilog10 q <> None.
 Proof. exact ilog10_fuel_enough. Qed.
 Print Assumptions C16_ilog10_fuel_enough.
 
+(* tt_short_domain: a domain shorter than m milliseconds gets one tick per
+   millisecond, from its first to its last instant (all inside the domain) *)
+Theorem C16_tt_short_domain : forall d0 d1 m l,
+  valid d0 -> valid d1 -> ms_resolution d0 -> ms_resolution d1 ->
+  let lo := to_us (dom_lo d0 d1) in let hi := to_us (dom_hi d0 d1) in
+  (hi - lo) / 1000 < m ->
+  ts_ticks d0 d1 m = Ok l ->
+  map to_us l = map (fun i => lo + 1000 * Z.of_nat i) (seq 0 (Z.to_nat ((hi - lo) / 1000 + 1))).
+Proof. exact tt_short_domain. Qed.
+Print Assumptions C16_tt_short_domain.
+
+(* tt_gap_ratio: consecutive gaps differ by at most a factor of two - indeed
+   ALL gaps of one tick list lie between some g and 2 g (microseconds) *)
+Theorem C16_tt_gap_ratio : forall d0 d1 m l,
+  valid d0 -> valid d1 -> ms_resolution d0 -> ms_resolution d1 ->
+  ts_ticks d0 d1 m = Ok l ->
+  exists g, 0 < g /\ Sorted (fun x y => g <= to_us y - to_us x <= 2 * g) l.
+Proof. exact tt_gap_ratio. Qed.
+Print Assumptions C16_tt_gap_ratio.
+
+(* tt_count: m / 2.4 - 1 <= n <= 2.4 m + 1, written on integers *)
+Theorem C16_tt_count : forall d0 d1 m l,
+  valid d0 -> valid d1 -> ms_resolution d0 -> ms_resolution d1 -> 0 < m ->
+  m <= (to_us (dom_hi d0 d1) - to_us (dom_lo d0 d1)) / 1000 ->
+  ts_ticks d0 d1 m = Ok l ->
+  let n := Z.of_nat (length l) in 10 * m <= 24 * (n + 1) /\ 10 * (n - 1) <= 24 * m.
+Proof. exact tt_count. Qed.
+Print Assumptions C16_tt_count.
+
 (* historical (A.7): before the repair 867ccf8 day ticks crossing a 31st raised,
    because the day step did; the witness of the step is kept in History/TimeOld.v *)
 Theorem C16_refuted_old :
@@ -115,3 +144,13 @@ Example C16_ex_years :
   exists l, ts_ticks (mkdt 2150 1 1 0 0 0 0) (mkdt 1900 1 1 0 0 0 0) 10 = Ok l /\ length l = 13%nat /\
             nth 1 l dt_min = mkdt 1920 1 1 0 0 0 0.
 Proof. split; [vm_compute; reflexivity|]. eexists. vm_compute. repeat split. Qed.
+
+(* the counting clauses on concrete domains: two-day ticks across the end of a
+   31-day month (gaps of 2 days and 1 day), m = 20 over 45 days: 23 ticks *)
+Example C16_ex_two_day :
+  exists l, ts_ticks (mkdt 2021 1 20 0 0 0 0) (mkdt 2021 3 6 0 0 0 0) 20 = Ok l /\
+            length l = 23%nat /\
+            nth 5 l dt_min = mkdt 2021 1 31 0 0 0 0 /\ nth 6 l dt_min = mkdt 2021 2 1 0 0 0 0 /\
+            nth 7 l dt_min = mkdt 2021 2 3 0 0 0 0 /\
+  tick_method_of (to_ms (mkdt 2021 1 20 0 0 0 0)) (to_ms (mkdt 2021 3 6 0 0 0 0)) 20 = Ok (TUnit UDay 2).
+Proof. eexists. vm_compute. repeat split. Qed.
